@@ -226,6 +226,46 @@ pub fn run_cluster(n: usize, seed0: u64, order: &[usize], failover: bool, v: &Ve
             }
         }
     }
+    // a node that asked to join and cannot be reached when the others try to link to it (it died right after asking, its
+    // address is not routable from them): the announcement must die down like any other exchange
+    if !failover && n >= 2 {
+        let gone = n - 1;
+        let addr = c.addr(gone);
+        c.kill_node(gone);
+        let q = c.run_until_quiet();
+        if matches!(q, Outcome::Quiet(_)) && c.panics().is_empty() {
+            for (who, line) in [("s0", format!("join {}", addr)), ("s0", "join 10.250.0.9:3014".to_string()), (if n == 3 { "s1" } else { "s0" }, format!("replicate-join {}", addr)), ("s0", format!("join {}", addr))] {
+                let before = c.link_log().len();
+                c.send(who, &line);
+                let out = c.run_until_quiet();
+                let word = line.split(' ').next().unwrap();
+                let role = if who == "s0" { "primary" } else { "secondary" };
+                {
+                    let mut s = st.lock().unwrap();
+                    s.ops += 1;
+                    s.cells.insert(format!("{}-of-an-unreachable-node@{}/n{}", word, role, n));
+                    s.lines += (c.link_log().len() - before) as u64;
+                }
+                if std::env::var("VERIF_DEBUG").is_ok() {
+                    eprintln!("== {} @{} n={} -> {:?}", line, who, n, out);
+                    for l in c.link_log()[before..].iter() { eprintln!("   [{}] n{}->n{} {}", l.0, l.1, l.2, l.3); }
+                    for t in c.trace().iter().rev().take(12).rev() { eprintln!("   T {}", t); }
+                }
+                let problem = match out {
+                    Outcome::Quiet(_) if c.panics().is_empty() => None,
+                    Outcome::Quiet(_) => Some("service-thread-panicked"),
+                    Outcome::BudgetExceeded => Some("no-quiescence-within-step-budget"),
+                    Outcome::Stuck(_) => None,
+                };
+                if let Some(p) = problem {
+                    let log = c.link_log();
+                    v.report(json!({"check": "burst", "command": format!("{}-of-an-unreachable-node", word), "issued_at": role, "problem": p}),
+                        json!({"nodes": n, "seed": seed0, "command": line, "lines_since": log.len() - before, "panics": c.panics(), "burst_tail": log.iter().rev().take(30).rev().map(|l| format!("[{}] n{}->n{} {}", l.0, l.1, l.2, l.3)).collect::<Vec<_>>()}));
+                    break;
+                }
+            }
+        }
+    }
     c.shutdown();
 }
 
